@@ -25,6 +25,9 @@ type Corpus struct {
 	Transform func(p *lg.Program, r *rand.Rand)
 	// Variant, if set, changes how each case is executed.
 	Variant *Variant
+	// OnOutcome, if set, receives golua's outcome of every case, including the
+	// cases the reference cannot decide (golua is then run all the same).
+	OnOutcome func(id, text string, args []Arg, got *gl.Outcome)
 }
 
 // AfterCase, if set, is called after every decided case of Run and RunFixed
@@ -76,6 +79,12 @@ func (cp Corpus) Run(c *vp.Child) {
 					cs = Check(p, text, lines, args)
 				}
 				c.Eval(1)
+				if cp.OnOutcome != nil && !resourceSkip(cs.Skip) {
+					if cs.Got == nil {
+						cs.Got = RunText(text, args)
+					}
+					cp.OnOutcome(id, text, args, cs.Got)
+				}
 				if cs.Skip != "" {
 					c.Inconclusive("reference: " + SkipClass(cs.Skip))
 					continue
@@ -114,6 +123,17 @@ func (cp Corpus) Run(c *vp.Child) {
 	for k, v := range gl.PointCounts() {
 		c.Feature("handoff:"+k, v)
 	}
+}
+
+// resourceSkip: the reference gave up for lack of resources (the program may
+// not terminate or may be huge): golua is not run on it without a verdict.
+func resourceSkip(reason string) bool {
+	for _, w := range []string{"fuel", "too long", "too large", "call depth", "panic"} {
+		if strings.Contains(reason, w) {
+			return true
+		}
+	}
+	return false
 }
 
 // SkipClass shortens a reason to a class (numbers and details removed).
